@@ -85,12 +85,14 @@ def plan(tier, seed, avoid):
 
 
 def floors(tier):
-    # the numbers on the unchanged tree with every open finding avoided are 4-10 times these
-    return {"evaluations": 2500, "distinct_nontrivial": 600, "observed.matrix_ops": 8,
-            "observed.shapes.LoopShape": 100, "observed.shapes.IfShape": 800, "observed.shapes.ContinueShape": 100,
-            "observed.shapes.SequenceShape": 800, "observed.modules_run.gen": 250, "observed.modules_run.c": 25,
-            "observed.modules_run.cfg": 40, "observed.modules_run.matrix": 60, "observed.globals_compared": 2000,
-            "observed.trace_events_compared": 100, "observed.v8_valid": 400}
+    # about a third of the minimum over seeds 0, 1, 2 on the tree with the seven open findings avoided
+    # (evaluations 25720, distinct 6438, LoopShape 778, IfShape 4681, ContinueShape 831, modules gen 840 /
+    # c 124 / cfg 166 / matrix 446, globals compared 18054, trace events 5384, valid binaries 1576)
+    return {"evaluations": 8000, "distinct_nontrivial": 2000, "observed.matrix_ops": 7,
+            "observed.shapes.LoopShape": 250, "observed.shapes.IfShape": 1500, "observed.shapes.ContinueShape": 250,
+            "observed.shapes.SequenceShape": 2400, "observed.modules_run.gen": 280, "observed.modules_run.c": 40,
+            "observed.modules_run.cfg": 55, "observed.modules_run.matrix": 150, "observed.globals_compared": 6000,
+            "observed.trace_events_compared": 1800, "observed.v8_valid": 520}
 
 
 # --------------------------------------------------------------------------
@@ -1357,6 +1359,7 @@ class CGen32:
         self.tags = set()
         self.nvar = 0
         self.helpers = []
+        self.optable = False
 
     # ---- expressions of type int
     def const(self):
@@ -1377,6 +1380,11 @@ class CGen32:
         if k < 0.78 and sc.get("ptr"):
             self.tags.add("pointer-deref")
             return "(*%s)" % sc["ptr"]
+        if k < 0.80 and self.ptrinit:
+            self.tags.add("initialised-pointer")
+            if self.optable and r.random() < 0.4 and not sc.get("nocall"):
+                return "gops[(%s) & 1](%s, %s)" % (self.expr(sc, 2), self.expr(sc, 2), self.expr(sc, 2))
+            return r.choice(["(*gp)", "(*gtab[(%s) & 1])" % self.expr(sc, 2), "gstr[(%s) & 3]" % self.expr(sc, 2)])
         if k < 0.82 and self.narrow:
             self.tags.add("narrow-global")
             return r.choice(["gc", "gs", "guc", "gus", "(int)gu"])
@@ -1575,10 +1583,23 @@ class CGen32:
         if self.structs:
             out.append("struct S { int a; int b; } s1, s2;")
         out.append("void report(int);")
-        for i in range(r.randint(0, 2)):
+        if self.ptrinit:
+            # globals initialised with addresses of data, of a string literal and (below) of functions
+            out.append("int *gp = &g1;")
+            out.append("int *gtab[2] = {&g0, &g2};")
+            out.append("const char *gstr = \"wasm\";")
+            nh = r.randint(0, 2)
+            if nh == 2:
+                out.append("static int h0(int a, int b);")
+                out.append("static int h1(int a, int b);")
+                out.append("int (*gops[2])(int, int) = {h0, h1};")
+        else:
+            nh = r.randint(0, 2)
+        for i in range(nh):
             name = "h%d" % i
             out += self.function(name, ["a", "b"], r.choice([3, 5, 8]), True)
             self.helpers.append(name)
+        self.optable = self.ptrinit and nh == 2
         entry = self.function("entry", ["a", "b", "c"], r.choice([6, 10, 16]), False)
         if not self.init:
             # the avoid switch of wasm-data-segment-arguments: globals are filled by code
